@@ -325,8 +325,10 @@ class CommandManager(object):
         with self.plock:
             self.pause.remove(threading.current_thread().ident)
             self.plock.notify()
-            with self.qlock:
-                self.qlock.notify_all()
+        # Take qlock only after releasing plock: wait_for_cmd acquires them
+        # in the opposite order (qlock, then plock).
+        with self.qlock:
+            self.qlock.notify_all()
 
     def get_result(self, lock_id):
         ''' get the result of a previously queued command '''
